@@ -11,7 +11,7 @@ a statement that cannot convert losslessly must fail."""
 import random
 from decimal import Decimal, InvalidOperation
 
-from common import Report, Violation, parallel_map, h, run_sentinels
+from common import Report, Violation, parallel_map, h, run_sentinels, panic_site
 from gen import gen_schema, setup_statements, QueryGen
 from sqlcase import RL, DISK_LAYOUTS, norm_rows, rows_of
 
@@ -200,7 +200,7 @@ def leg_b(args):
             if not r["ok"]:
                 res["rejected"] += 1
                 if r.get("kind") == "panic" or r.get("panics"):
-                    site = (r.get("panics") or ["?"])[0].split("|")[0].replace("/repo/", "")
+                    site = panic_site(r.get("panics")[0]) if r.get("panics") else "?"
                     res["violations"].append(dict(signature=f"insert-panics:{site}", what=f"{ddl}; {sql}: {r.get('panics')}", sql=sql, ddl=ddl, engine=engine))
                 continue
             res["accepted"] += 1
